@@ -29,9 +29,18 @@ class Impl:
         except Exception as e:  # noqa
             return vlib.exc_tag(e), e
 
+    def parse_static(self, frame, validate=1, label=1):
+        try:
+            return 0, self.RTCMReader.parse(frame, validate=validate, labelmsm=label)
+        except Exception as e:  # noqa
+            return vlib.exc_tag(e), e
+
     def observe(self, payload, label, proj):
         """-> (expected bytes, floats, tag, readable summary)"""
         tag, m = self.construct(payload, label)
+        return self.observe_result(tag, m, proj)
+
+    def observe_result(self, tag, m, proj):
         if tag != 0:
             return bytes([tag]), [], tag, {"outcome": vlib.TAGNAME[tag], "exception": repr(m)[:200]}
         fl = []
@@ -61,7 +70,22 @@ def add_case(em, impl, payload, label, proj, desc):
            explain="match construct T (Some (unpack %s)) %s with Ok o => Ok (o_attrs o) | Lib e => Lib e | Foreign k => Foreign k | Unmodelled w => Unmodelled w end" % (bl, vlib.zlit(lz)),
            size=len(payload), spec=["msg", payload.hex(), label if not isinstance(label, bool) else 1, proj])
     em.count("outcome." + vlib.TAGNAME[tag])
+    # the same bytes handed over as other bytes-like objects: same observable (a parse result depends on the bytes only)
+    TYPE_TICK[0] += 1
+    if TYPE_TICK[0] % 5 == 0:
+        for nm, wrap in (("bytearray", bytearray), ("memoryview", lambda b: memoryview(bytearray(b)))):
+            em.direct_evaluations += 1
+            exp2, fl2, tag2, rd2 = impl.observe(wrap(payload), label, proj)
+            if exp2 != exp or [x.hex() for x in fl2] != [x.hex() for x in fl]:
+                em.violation("the result of constructing a message from a %s differs from the result for the same bytes" % nm,
+                             {"payload": payload.hex(), "labelmsm": lz, "payload_type": nm}, {"bytes": readable.get("outcome"), nm: rd2.get("outcome"), "detail": str(rd2.get("exception", ""))[:200]})
+                break
+        em.count("payload_types_checked")
     return tag, readable
+
+
+TYPE_TICK = [0]
+COPY_TICK = [0]
 
 
 def id_len(payload):
@@ -81,6 +105,10 @@ def corpus(tabs, rng, per_ident, modes=("rand",), maxcount=3, idents=None, label
                 b = gen.build(tabs, ident, rng, maxcount=1, mode=mode, maskmode="last", label=label)
             if b is not None and len(b.payload) <= 1023:
                 out.append(b)
+        if ident in BIGCOUNT_IDENTS and per_ident:
+            bb = gen.bigcount_builds(tabs, rng, [ident])
+            for b in (bb if per_ident > 1 else rng.sample(bb, min(len(bb), 4))):
+                out.append(b)
         if ident in tabs.M:     # explicit MSM shapes, rotating so that every run covers all of them across the 49 MSM identities
             for _ in range(2):
                 SHAPE_NEXT[0] += 1
@@ -94,6 +122,7 @@ def corpus(tabs, rng, per_ident, modes=("rand",), maxcount=3, idents=None, label
 
 
 SHAPE_NEXT = [0]
+BIGCOUNT_IDENTS = ("1007", "1008", "1029", "1033", "4076_201")
 
 
 def check_expected(em, impl, b, label, what="C03"):
@@ -111,6 +140,28 @@ def check_expected(em, impl, b, label, what="C03"):
                      {"payload": b.payload.hex(), "identity": b.ident, "labelmsm": label},
                      {"first_differences(impl,expected)": repr(diff), "n_impl": len(got), "n_expected": len(b.exp)})
     return m
+
+
+def collide_check(em, impl, pays, rng, what, n=12):
+    """valid frames that share message number, length AND checksum bytes with the frame parsed just before (built by xor-ing shifted
+    copies of the generator polynomial): each must still be decoded from its own bytes (static parser, validation on, both labels)"""
+    cand = [p for p in pays if 11 <= len(p) <= 600]
+    for p in rng.sample(cand, min(n, len(cand))):
+        fa = gen.frame(p)
+        sibs = rng.sample(gen.collide_variants(fa), min(3, len(gen.collide_variants(fa))))
+        seq = [fa]
+        for sb in sibs:
+            seq += [sb, fa]
+        for lab in (1, 2):
+            for fr in seq:
+                em.direct_evaluations += 1
+                own = impl.observe(fr[3:-3], lab, FULL)
+                got = impl.observe_result(*impl.parse_static(fr, 1, lab), FULL)
+                if got[0] != own[0] or [x.hex() for x in got[1]] != [x.hex() for x in own[1]]:
+                    em.violation("%s: a valid frame parsed after another valid frame with the same number, length and checksum bytes is not decoded from its own bytes" % what,
+                                 {"frame": fr.hex(), "parsed_just_before": seq[0].hex(), "labelmsm": lab, "sequence": [x.hex() for x in seq]}, {"got": got[3], "own": own[3]})
+                    return
+    em.count("crc_colliding_sequences")
 
 
 # ---------------------------------------------------------------------------------------------- per-property corpora
@@ -166,6 +217,7 @@ def run_C03(em, impl, tabs, rng, thorough):
             if [a[0] for a in base] != [a[0] for a in got] or (changed != [nm] and not (negzero and changed == [])):
                 em.violation("C03: changing the bits of plain field %s changes %s" % (nm, changed[:4]),
                              {"payload": b.payload.hex(), "flipped_bit": bit, "identity": b.ident}, {})
+    collide_check(em, impl, [b.payload for b in blds], rng, "C03", 20 if thorough else 10)
     em.samples = [{"identity": b.ident, "payload": b.payload.hex()[:120], "n_attrs": len(b.exp)} for b in blds[:3]]
 
 
@@ -253,6 +305,11 @@ def run_C07(em, impl, tabs, rng, thorough):
     # unknown types and boundary sizes
     for n in (2, 3, 255, 256, 1022, 1023):
         pays.append(bytes([0x12, 0x30]) + bytes(rng.getrandbits(8) for _ in range(n - 2)))
+    # payloads that are themselves frames or begin like foreign-protocol data (message number 3376 = 0xD30 etc.)
+    for inner in (bytes([0x3e, 0xd0]) + bytes(rng.getrandbits(8) for _ in range(17)), pays[0][:400], bytes([0x12, 0x30])):
+        for what, pl in gen.nested_payloads(rng, inner):
+            pays.append(pl)
+            em.count("nested." + what.replace(" ", "_"))
     for p in pays:
         add_case(em, impl, p, 1, FULL, "serialize/parse of a %d-byte payload" % len(p))
         tag, m = impl.construct(p, 1)
@@ -407,6 +464,12 @@ def run_C13(em, impl, tabs, rng, thorough):
                 off = [f for f in b.fields if f[1] == key][0][4]
                 v = (v & ~(((1 << width) - 1) << (nb - off - width))) | (mk << (nb - off - width))
             pays.append(v.to_bytes(len(b.payload), "big") + bytes(60))
+    for ident in rng.sample(list(tabs.M), 4 if thorough else 2):
+        for ma, mb in gen.hash_colliding_mask_pairs(rng):
+            for mk in (ma, mb):
+                b = gen.build(tabs, ident, rng, maskmode=mk, mode="zeros")
+                if b is not None and len(b.payload) <= 1023:
+                    pays.append(b.payload)
     order = pays + bad
     rng.shuffle(order)
     # fresh interpreters with different histories: each payload's result must be the same in all of them and here
@@ -443,6 +506,7 @@ def run_C13(em, impl, tabs, rng, thorough):
     # the model is pure: compare the result obtained *after* the histories with the model
     for p in order:
         add_case(em, impl, p, 1, FULL, "payload parsed after %d other parses" % len(order))
+    collide_check(em, impl, pays, rng, "C13", 30 if thorough else 12)
     # threads
     errs = []
 
@@ -502,6 +566,35 @@ def run_C14(em, impl, tabs, rng, thorough):
                     em.violation("C14: assignment to %s raised %r instead of the message error" % (nme, e), {"payload": p.hex(), "name": nme}, {})
         if snap != snapshot():
             em.violation("C14: message changed after rejected assignments", {"payload": p.hex()}, {})
+        # a copy of a message (copy / deepcopy / pickle round trip) is a message: equally immutable
+        COPY_TICK[0] += 1
+        if COPY_TICK[0] % 6 == 0 or len(pays) - pays.index(p) <= 2:
+            import copy as _copy
+            import pickle as _pickle
+            for how, mk in (("copy.copy", _copy.copy), ("copy.deepcopy", _copy.deepcopy), ("pickle round trip", lambda x: _pickle.loads(_pickle.dumps(x)))):
+                em.direct_evaluations += 1
+                try:
+                    m2 = mk(m)
+                except Exception:  # noqa  (copying is not promised; an object that cannot be copied cannot be mutated through a copy)
+                    continue
+                before = (dict(m2.__dict__), str(m2), m2.serialize(), m2.identity, m2.payload)
+                for nme in (list(m2.__dict__)[:3] + ["DF002", "new_attribute", "_payload"]):
+                    try:
+                        setattr(m2, nme, 1)
+                        em.violation("C14: assignment to %s of a message obtained by %s did not raise" % (nme, how), {"payload": p.hex(), "name": nme, "copy": how}, {})
+                        break
+                    except RTCMMessageError:
+                        pass
+                    except Exception as e:  # noqa
+                        em.violation("C14: assignment to %s of a copied message raised %r" % (nme, e), {"payload": p.hex(), "name": nme, "copy": how}, {})
+                        break
+                try:
+                    after = (dict(m2.__dict__), str(m2), m2.serialize(), m2.identity, m2.payload)
+                except Exception as e:  # noqa
+                    after = repr(e)
+                if after != before:
+                    em.violation("C14: a message obtained by %s changed after rejected assignments" % how, {"payload": p.hex(), "copy": how}, {})
+            em.count("copies_checked")
     em.samples = [{"payload": pays[0].hex()[:80], "assigned_names": "all of __dict__ + new/private/property names"}]
 
 
@@ -555,6 +648,18 @@ def run_C15(em, impl, tabs, rng, thorough):
             em.violation("C15: decoded message number differs from identity for %s" % b.ident, {"payload": b.payload.hex()}, {})
         if (b.ident in msmkeys) != bool(m.ismsm) and b.ident in msmkeys:
             em.violation("C15: implemented MSM type %s not reported as MSM" % b.ident, {"payload": b.payload.hex()}, {})
+    # unknown numbers whose payload is itself a frame / foreign-protocol look-alike: the stub keeps the FULL payload
+    for inner in (bytes([0x3e, 0xd0]) + bytes(rng.getrandbits(8) for _ in range(17)), bytes([0x12, 0x30])):
+        for what, pl in gen.nested_payloads(rng, inner):
+            mid = pl[0] << 4 | pl[1] >> 4
+            if str(mid) in allkeys or mid == 4076:
+                continue
+            add_case(em, impl, pl, 1, IDENT, "message number %d: %s" % (mid, what))
+            em.direct_evaluations += 1
+            t2, m = impl.construct(pl, 1)
+            if t2 != 0 or m.identity != str(mid) or m.payload != pl or m.serialize() != gen.frame(pl):
+                em.violation("C15: unknown message number %d whose %s is not preserved" % (mid, what), {"payload": pl.hex()},
+                             {"outcome": vlib.TAGNAME[t2], "payload_kept": (m.payload.hex() if t2 == 0 else None)})
     em.samples = [{"sweep": "all 4096 message numbers x 2-3 variants, all 256 sub-types of 4076, one payload per implemented type"}]
 
 
@@ -579,6 +684,14 @@ def run_C16(em, impl, tabs, rng, thorough):
             b2 = gen.Built()
             b2.ident, b2.payload = ident, pay
             blds.append(b2)
+    # mask triples that differ in one mask by 2**61-1 (equal hash(), equal popcount), one right after the other
+    for ident in rng.sample(list(tabs.M), 6 if thorough else 3):
+        for ma, mb in gen.hash_colliding_mask_pairs(rng):
+            for mk in (ma, mb, ma):
+                b = gen.build(tabs, ident, rng, maskmode=mk, mode="zeros")
+                if b is not None and len(b.payload) <= 1023:
+                    blds.append(b)
+                    em.count("hash_colliding_masks")
     others = corpus(tabs, rng, 1, idents=rng.sample([k for k in tabs.ALL if k not in tabs.M], 40 if thorough else 15))
     for b in blds + others:
         for label in (0, 1, 2, 3):
